@@ -32,6 +32,9 @@ pub enum Fault {
     Garbage,
     /// Content-Length larger than what is sent, then close
     LengthLie(usize),
+    /// serve the range correctly, but with `Transfer-Encoding: chunked` and no Content-Length (one HTTP
+    /// chunk per flushed piece of the body)
+    Chunked,
     /// redirect to self
     Redirect,
     /// this and every later request is redirected to a fresh URL of this server, up to the given
@@ -244,7 +247,7 @@ fn handle(mut stream: TcpStream, shared: Arc<Mutex<Shared>>) {
         let mut declared: Option<usize> = None;
         let mut close_after: Option<usize> = None;
         match &fault {
-            Fault::None | Fault::Refuse => {}
+            Fault::None | Fault::Refuse | Fault::Chunked => {}
             Fault::CutAfter(k) => {
                 declared = Some(body.len());
                 close_after = Some((*k).min(body.len()));
@@ -286,7 +289,12 @@ fn handle(mut stream: TcpStream, shared: Arc<Mutex<Shared>>) {
             }
         }
         let clen = declared.unwrap_or(body.len());
-        let mut headbuf = format!("HTTP/1.1 {} X\r\nContent-Length: {}\r\nAccept-Ranges: bytes\r\n", status, clen);
+        let chunked = fault == Fault::Chunked;
+        let mut headbuf = if chunked {
+            format!("HTTP/1.1 {} X\r\nTransfer-Encoding: chunked\r\nAccept-Ranges: bytes\r\n", status)
+        } else {
+            format!("HTTP/1.1 {} X\r\nContent-Length: {}\r\nAccept-Ranges: bytes\r\n", status, clen)
+        };
         if let (206, Some((a, _))) = (status, range) {
             headbuf.push_str(&format!("Content-Range: bytes {}-{}/{}\r\n", a, a + body.len().max(1) as u64 - 1, flen));
         }
@@ -305,11 +313,20 @@ fn handle(mut stream: TcpStream, shared: Arc<Mutex<Shared>>) {
             if !ok {
                 break;
             }
-            ok = stream.write_all(&body[pos..c]).is_ok() && stream.flush().is_ok();
+            if chunked {
+                if c > pos {
+                    ok = stream.write_all(format!("{:x}\r\n", c - pos).as_bytes()).is_ok() && stream.write_all(&body[pos..c]).is_ok() && stream.write_all(b"\r\n").is_ok() && stream.flush().is_ok();
+                }
+            } else {
+                ok = stream.write_all(&body[pos..c]).is_ok() && stream.flush().is_ok();
+            }
             pos = c;
             if c < send {
                 std::thread::sleep(Duration::from_micros(1500));
             }
+        }
+        if chunked && ok {
+            ok = stream.write_all(b"0\r\n\r\n").is_ok() && stream.flush().is_ok();
         }
         {
             let mut s = shared.lock().unwrap();
